@@ -36,6 +36,8 @@ PATHS = [
     ("exec_status", "e a 0; exec msleep 1 9; e notreached 0", "exec"),
     ("exit_in_eval", "eval 'e a 0; exit 6'; e notreached 0", "exit"),
     ("exit_in_source", "echo 'e insrc 0; exit 11; e notreached 0' > lib.sh; . ./lib.sh; e notreached2 0", "exit"),
+    # `exit` run by another trap's handler ends the shell too (with the EXIT trap, once)
+    ("exit_in_err_handler", "trap 'echo \"@hx $?\"; exit 5' ERR; e a 3; e notreached 0", "exit"),
 ]
 
 # --- nesting contexts: text with {} placeholder
